@@ -55,6 +55,8 @@ theorem ownSeq_logout (text : String) : ownSeq (logoutMsg text) = false := by
   · split <;> simp [Msg.lookup, tText, tPossDupFlag]
 
 section walk
+-- the guard is `excFree` from here on: `disconnect` swallows the exception of an unsendable Logout
+local notation "g" => excFree
 attribute [local irreducible] disconnect stateSet sendMsg setSeqNum M.bind' M.pure' M.get M.modify M.emit M.throw
   M.liftE M.assert M.int
 
